@@ -404,7 +404,7 @@ class PipeWorld:
         boot.set_epoch(boot.EPOCH)
         boot._state['skew'] = 0.0
         self.spec = aegen.generate(ch, max_pkgs=cfg['max_pkgs'], max_total=cfg['max_total'],
-                                   feedback=cfg.get('feedback', True))
+                                   feedback=cfg.get('feedback', True), self_refs=cfg.get('self_refs', False))
         self.ref = aegen.Ref(self.spec)
         self.G = Truth(self, self.ref)
         self.eng = aegen.Engine(self.spec)
